@@ -387,12 +387,27 @@ func caseStdlib(m *monitor, r *core.Rand) string {
 // genericArgs draws arguments from the declared parameter types only.
 func genericArgs(r *core.Rand, f function.Function) []cty.Value {
 	var out []cty.Value
+	one := func(ty cty.Type) cty.Value {
+		if ty == cty.Number {
+			// never a large whole number: indent(2^32, s) and friends allocate by the number they are given
+			// (resource use is C11/C17's subject; here it only gets the worker killed)
+			v := gen.SmallNumber(r)
+			if r.Chance(1, 4) {
+				v = cty.NumberIntVal(int64(r.Intn(2001) - 1000))
+			}
+			if r.Chance(1, 6) {
+				v = gen.Unknown(r, cty.Number, true)
+			}
+			return v
+		}
+		return anyValueOf(r, ty)
+	}
 	for _, p := range f.Params() {
-		out = append(out, anyValueOf(r, p.Type))
+		out = append(out, one(p.Type))
 	}
 	if vp := f.VarParam(); vp != nil {
 		for k, n := 0, r.Intn(4); k < n; k++ {
-			out = append(out, anyValueOf(r, vp.Type))
+			out = append(out, one(vp.Type))
 		}
 	}
 	return out
